@@ -291,7 +291,9 @@ harness(void) {
               ldb_fixed64_decode(edit_cp_key + 1) == l0_t, "the same compact pointer is recorded in the compaction's edit");
 
     /* ---- witnesses ---- */
+#ifndef VP_WIT_SKIP_TRIVIAL   /* scenario S3: the only file always meets level+1 */
     if (triv) VP_WITNESS("trivial-move");
+#endif
 #if (VP_NCL >= 2 || VP_NCL2 >= 1) && !defined(VP_UKEYS)
     if (!triv && n1 == 0) VP_WITNESS("rewritten-because-of-grandparents-or-several-inputs");
 #endif
@@ -316,8 +318,11 @@ harness(void) {
         VP_WITNESS("expanded-inputs0-pull-their-boundary-file");
     }
 #endif
-#if VP_NCL1 >= 2
+#if VP_NCL1 >= 2 && !defined(VP_WIT_SKIP_TRIVIAL)
     if (n1 > 0 && n1 < VP_NCL1) VP_WITNESS("some-level+1-files-survive");
+#endif
+#if VP_NCL1 >= 2 && defined(VP_WIT_SKIP_TRIVIAL)
+    if (n1 == VP_NCL1) VP_WITNESS("level+1-boundary-file-pulled");
 #endif
   }
 #endif
